@@ -26,8 +26,8 @@ type Op struct {
 	Obj     interface{} // object identity (pointer) for the dependence relation
 	Label   string
 	Enabled func() bool
-	// nReady returns the number of alternatives inside the operation (select cases ready); 0/1 = no inner choice.
 	quiesce bool
+	site    string // calling portbase function (resolved lazily, only inside the window)
 }
 
 // Thread is a managed goroutine.
@@ -104,6 +104,8 @@ type state struct {
 	selectCost  int
 	watchdogHit bool
 	mapDesc     bool
+	preemptIn   []string // function-name prefixes whose points may be preempted (nil = everywhere)
+	switchCost  int      // cost of a non-default choice when the running thread cannot continue (0 = preemption bounding, 1 = delay bounding)
 }
 
 var s state
@@ -144,6 +146,13 @@ type Config struct {
 	SelectCost int // cost of choosing a non-first ready select case (default 1)
 	MapDesc    bool
 	Invariant  func() string
+	// PreemptIn restricts preemptions (switching away from a thread that could continue) to points
+	// whose calling function name starts with one of these prefixes; points elsewhere are only
+	// switch points when the thread blocks there. Empty = preempt everywhere.
+	PreemptIn []string
+	// PreemptionBounding makes switches at blocking points free (CHESS); the default is delay
+	// bounding: every departure from the deterministic default scheduler costs 1.
+	PreemptionBounding bool
 }
 
 // Run executes root under the scheduler with the given choice prefix and
@@ -154,7 +163,10 @@ func Run(cfg Config, root func()) *Result {
 	}
 	runID++
 	s = state{active: true, prefix: cfg.Prefix, maxSteps: cfg.MaxSteps, chans: map[uintptr]*chanState{}, ended: make(chan struct{}),
-		invariant: cfg.Invariant, selectCost: cfg.SelectCost, mapDesc: cfg.MapDesc}
+		invariant: cfg.Invariant, selectCost: cfg.SelectCost, mapDesc: cfg.MapDesc, preemptIn: cfg.PreemptIn, switchCost: 1}
+	if cfg.PreemptionBounding {
+		s.switchCost = 0
+	}
 	if s.maxSteps == 0 {
 		s.maxSteps = 200000
 	}
@@ -285,6 +297,9 @@ func Yield(op *Op) {
 		return
 	}
 	t.op = op
+	if s.window && len(s.preemptIn) > 0 && op.site == "" {
+		op.site = callerSite()
+	}
 	next := pickNext(t)
 	if next == nil {
 		// execution ended while we were parked: wait to be aborted
@@ -304,13 +319,14 @@ func Yield(op *Op) {
 	t.op = nil
 }
 
-// abortHere ends the calling thread during teardown. Inside deferred
-// functions of an already exiting thread shim operations are no-ops.
+// abortHere ends the calling thread during teardown. It never returns: also inside
+// deferred functions of an already exiting thread the goroutine exits again
+// (nested runtime.Goexit keeps running the remaining deferred calls), so no
+// portbase code ever continues behind a shim operation once teardown began.
 func abortHere(t *Thread) {
-	if t == nil || t.exiting {
-		return
+	if t != nil {
+		t.exiting = true
 	}
-	t.exiting = true
 	runtime.Goexit()
 }
 
@@ -390,7 +406,10 @@ func pickNext(cur *Thread) *Thread {
 		if len(enabled) == 1 || !s.window {
 			return enabled[0]
 		}
-		cost := 0
+		if curEnabled && !preemptible(cur.op) {
+			return cur
+		}
+		cost := s.switchCost
 		if curEnabled {
 			cost = 1
 		}
@@ -409,6 +428,39 @@ func pickNext(cur *Thread) *Thread {
 		}
 		return enabled[idx]
 	}
+}
+
+func preemptible(op *Op) bool {
+	if len(s.preemptIn) == 0 || op == nil || op.Kind == "event" || op.Kind == "point" {
+		return true
+	}
+	for _, p := range s.preemptIn {
+		if strings.HasPrefix(op.site, p) {
+			return true
+		}
+	}
+	return false
+}
+
+var siteCache = map[uintptr]string{}
+
+// callerSite returns the name of the innermost calling function outside the shims.
+func callerSite() string {
+	var pcs [8]uintptr
+	n := runtime.Callers(3, pcs[:])
+	for _, pc := range pcs[:n] {
+		name, ok := siteCache[pc]
+		if !ok {
+			if f := runtime.FuncForPC(pc - 1); f != nil {
+				name = f.Name()
+			}
+			siteCache[pc] = name
+		}
+		if name != "" && !strings.Contains(name, "/zzverif/") {
+			return name
+		}
+	}
+	return "?"
 }
 
 // decide records a choice among n options and returns the index to take.
